@@ -174,8 +174,6 @@ class Var:
     expr = None
 
     def __init__(self, args, fmt='s', encoding=None):
-        if args[:4] == 'var ':
-            args = args[4:]
         args = parse_params(args, name='', lower=1, upper=1, expr='',
                             capitalize=1, spacify=1, null='', fmt='s',
                             size=0, etc='...', thousands_commas=1,
